@@ -19,7 +19,9 @@ RULE = ("Cases = matrices (1-6 x 1-9) for RunLength2dArray and ragged arrays wit
         "ufuncs with a scalar or (n,1) column on either side incl. non-commutative ones.  Oracle = numpy on the dense rows.  "
         "Non-trivial = at least two rows with different run structure; for ufuncs: operand on the left of a non-commutative ufunc."
         "  Matrix inputs in C / F / transposed / strided / reversed-stride layout; every source array is overwritten by the caller after encoding.")
-ASSUMPTIONS = ["column selection and max/mean/argmax on the matrix variant are not claimed by the property: not asserted",
+ASSUMPTIONS = ["column-wise sum / mean of float data holding inf or nan is known finding K3 (probe-K3-column-sum-nonfinite); the other column sub-checks use "
+               "finite floats; row-wise reductions are checked with non-finite values too (float64; the float32 row mean comes back as float64 and is not asserted)",
+               "column selection and max/mean/argmax on the matrix variant are not claimed by the property: not asserted",
                "values are finite; reductions are compared by value (float tolerance 4 ulp)"]
 
 DTS = ["bool", "int8", "int64", "uint8", "float64"]
@@ -478,23 +480,25 @@ def sequence_case(draw, tier):
 # ---------------------------------------------------------------- strategies
 
 @st.composite
-def row_st(draw, dt, n):
+def row_st(draw, dt, n, nonfinite=False):
     cuts = draw(st.lists(st.integers(1, max(n - 1, 1)), max_size=4))
     # small-width integer dtypes use their full range (column sums must not wrap); wider ones stay small
-    vals = draw(st.lists(gen.elem(dt, specials=False, mag=None if dt in ("int8", "uint8") else 8), min_size=1, max_size=3))
+    # floats: small dyadic values (sums exact in any order) plus, now and then, inf / -inf / nan / -0.0 (a non-finite value in
+    # one row must never show in another row's result)
+    vals = draw(st.lists(gen.elem(dt, specials=nonfinite and dt.startswith("float"), mag=None if dt in ("int8", "uint8") else 8), min_size=1, max_size=3))
     return {"n": n, "c": cuts, "v": vals}
 
 
 @st.composite
-def arr_st(draw, kinds=("2d", "rag"), min_rows=1):
+def arr_st(draw, kinds=("2d", "rag"), min_rows=1, nonfinite=False):
     kind = draw(st.sampled_from(kinds))
-    dt = draw(st.sampled_from(DTS))
+    dt = draw(st.sampled_from(["float64"] if nonfinite else DTS))
     nr = draw(st.integers(min_rows, 6))
     if kind == "2d":
         w = draw(st.integers(1, 9))
-        rows = [draw(row_st(dt, w)) for _ in range(nr)]
+        rows = [draw(row_st(dt, w, nonfinite)) for _ in range(nr)]
     else:
-        rows = [draw(row_st(dt, draw(st.integers(1, 9)))) for _ in range(nr)]
+        rows = [draw(row_st(dt, draw(st.integers(1, 9)), nonfinite)) for _ in range(nr)]
     return {"kind": kind, "dt": dt, "rows": rows, "via": draw(st.sampled_from(["from_ragged_array", "from_array"])),
             "src_lz": draw(st.sampled_from(LAZY_CHOICES)), "layout": draw(st.sampled_from(LAYOUTS))}
 
@@ -537,8 +541,8 @@ def column_case(draw, tier):
 
 
 @st.composite
-def rowred_case(draw, tier):
-    case = draw(arr_st())
+def rowred_case(draw, tier, nonfinite=False):
+    case = draw(arr_st(nonfinite=nonfinite))
     fs = ["sum", "any", "all"] + (["max", "mean", "argmax"] if case["kind"] == "rag" else [])
     case["f"] = draw(st.sampled_from(fs))
     case["spell"] = draw(st.sampled_from(["method", "np"])) if case["kind"] == "rag" and case["f"] in ("sum", "mean", "max") else "method"
@@ -555,6 +559,19 @@ def colred_case(draw, tier):
     case["f"] = draw(st.sampled_from(fs))
     case["axis"] = draw(st.sampled_from([0, -2]))
     return case
+
+
+@st.composite
+def colred_nonfinite_case(draw, tier):
+    case = draw(arr_st(nonfinite=True))
+    case["f"] = draw(st.sampled_from(["sum", "sum", "mean"] if case["kind"] == "rag" else ["sum"]))
+    case["axis"] = draw(st.sampled_from([0, -2]))
+    return case
+
+
+def body_colred_nonfinite(case, ctx):
+    """directed probe of known finding K3: column sums are a running sum of value differences (inf - inf = nan)"""
+    body_colred(case, ctx)
 
 
 @st.composite
@@ -608,10 +625,15 @@ SUBCHECKS = [
     SubCheck("element", body_elem, elem_case, quick=3000, thorough=150000, shards_quick=1, doc="[i, j] with negative i / j"),
     SubCheck("column", body_column, column_case, quick=6000, thorough=400000, shards_quick=4,
              doc="ragged variant: [rows, j] and [rows, a:b:s] inside the property's domain"),
+    SubCheck("row-reductions-nonfinite", body_rowred, lambda tier: rowred_case(tier, nonfinite=True), quick=3000, thorough=200000, shards_quick=2,
+             doc="row-wise sum / any / all / max / mean / argmax of float rows holding inf, -inf, nan, -0.0 next to small dyadic values: a "
+                 "non-finite value in one row never shows in another row's result"),
     SubCheck("row-reductions", body_rowred, rowred_case, quick=4000, thorough=250000, shards_quick=2,
              doc="sum/any/all (both variants), max/mean/argmax (ragged), method and np.<f>"),
     SubCheck("column-reductions", body_colred, colred_case, quick=4000, thorough=250000, shards_quick=2,
              doc="column sum (both), mean / counts (ragged), any (matrix), axis 0 / -2"),
+    SubCheck("probe-K3-column-sum-nonfinite", body_colred_nonfinite, colred_nonfinite_case, quick=300, thorough=3000, shards_quick=1, shards_thorough=1,
+             finding_id="K3-column-sum-nonfinite", doc="directed probe: column-wise sum / mean of float rows holding inf / nan"),
     SubCheck("column-any-intervals", body_colany_intervals, colany_case, quick=3000, thorough=200000, shards_quick=1,
              doc="any(axis=0) / sum(axis=0) on matrices built from nested / abutting / disjoint intervals"),
     SubCheck("ravel-concatenate", body_ravel_concat, ravel_concat_case, quick=2000, thorough=120000, shards_quick=1,
